@@ -1871,4 +1871,139 @@ theorem isOpt_value_unique (p : Prob) (x x' : V → Rat) (h : p.IsOpt x) (h' : p
   · have hm' : p.dirMax = false := by simpa using hm
     simp only [hm', Bool.false_eq_true, if_false] at a b; exact le_antisymm a b
 
+/-! ### mixed-integer problems: enumeration of the binary variables -/
+
+theorem allAssign_complete (bs : List V) (x : V → Rat) (hx : ∀ b ∈ bs, x b = 0 ∨ x b = 1) :
+    ∃ a ∈ allAssign bs, ∀ b ∈ bs, lookupA a b = x b := by
+  induction bs with
+  | nil => exact ⟨[], by simp [allAssign], fun b hb => by cases hb⟩
+  | cons b bs ih =>
+    obtain ⟨a, ha, hag⟩ := ih (fun c hc => hx c (by simp [hc]))
+    refine ⟨(b, x b) :: a, ?_, ?_⟩
+    · simp only [allAssign, List.mem_flatMap, List.mem_cons, List.not_mem_nil, or_false]
+      refine ⟨a, ha, ?_⟩
+      rcases hx b (by simp) with h | h <;> rw [h] <;> simp
+    · intro c hc
+      simp only [lookupA]
+      by_cases hbc : b = c
+      · simp [hbc]
+      · simp only [hbc, if_false]
+        rcases List.mem_cons.1 hc with h | h
+        · exact absurd h.symm hbc
+        · exact hag c h
+
+theorem mem_zip_of_mem {α β : Type} (l1 : List α) (l2 : List β) (h : l1.length = l2.length) (a : α) (ha : a ∈ l1) : ∃ c, (a, c) ∈ l1.zip l2 := by
+  induction l1 generalizing l2 with
+  | nil => cases ha
+  | cons x l1 ih =>
+    cases l2 with
+    | nil => simp at h
+    | cons y l2 =>
+      rcases List.mem_cons.1 ha with rfl | hl
+      · exact ⟨y, by simp⟩
+      · obtain ⟨c, hc⟩ := ih l2 (by simpa using h) hl
+        exact ⟨c, by simp [hc]⟩
+
+theorem fix_rows (p : Prob) (a : List (V × Rat)) : (p.fix a).rows = p.rows := rfl
+theorem fix_obj (p : Prob) (a : List (V × Rat)) : (p.fix a).obj = p.obj := rfl
+theorem fix_value (p : Prob) (a : List (V × Rat)) (x : V → Rat) : (p.fix a).value x = p.value x := rfl
+
+/-- a feasible point of the mixed-integer problem is a feasible point of the leaf that fixes the binary variables at the values it gives them -/
+theorem fix_feasible (p : Prob) (x : V → Rat) (a : List (V × Rat)) (hag : ∀ b ∈ p.binVars, lookupA a b = x b) (hx : p.Feasible x) :
+    (p.fix a).Feasible x := by
+  refine ⟨?_, hx.2⟩
+  intro w hw
+  simp only [Prob.fix, List.mem_map] at hw
+  obtain ⟨w0, hw0, rfl⟩ := hw
+  by_cases hb : (w0.kind == Kind.bin) = true
+  · simp only [hb, if_true]
+    have hmem : w0.v ∈ p.binVars := by
+      simp only [Prob.binVars, List.mem_map, List.mem_filter]
+      exact ⟨w0, ⟨hw0, hb⟩, rfl⟩
+    rw [ok_cont, hag _ hmem, Core.inBox_fin]
+    exact ⟨le_refl _, le_refl _⟩
+  · simp only [hb, Bool.false_eq_true, if_false]
+    exact hx.1 w0 hw0
+
+theorem bins_binary (p : Prob) (x : V → Rat) (hx : p.Feasible x) : ∀ b ∈ p.binVars, x b = 0 ∨ x b = 1 := by
+  intro b hb
+  simp only [Prob.binVars, List.mem_map, List.mem_filter] at hb
+  obtain ⟨w, ⟨hw, hk⟩, rfl⟩ := hb
+  exact (hx.1 w hw).2.1 (by simpa using hk)
+
+theorem dense_obj_dot (p : Prob) (h : p.closedB = true) (x : V → Rat) :
+    LPM.dot (p.dense p.obj) (p.vars.map (fun w => x w.v)) = p.value x := by
+  obtain ⟨h1, _, h3, _⟩ := closedB_spec p h
+  have := dot_dense (p.vars.map (·.v)) h1 p.obj h3 x
+  simpa [Prob.dense, Prob.value, List.map_map, Function.comp_def] using this
+
+/-- **a certified enumeration of the binary variables bounds the mixed-integer minimum from below**: when every 0/1 assignment of the binary
+variables leads to a leaf problem that is certified infeasible or certified optimal with a value of at least `L`, no feasible point of the
+mixed-integer problem has an objective value below `L` -/
+theorem certLeavesMin_bound (p : Prob) (certs : List LeafCert) (L : Rat) (h : p.certLeavesMin certs L = true) (x : V → Rat) (hx : p.Feasible x) :
+    L ≤ p.value x := by
+  simp only [Prob.certLeavesMin, Bool.and_eq_true, List.all_eq_true, beq_iff_eq, Bool.not_eq_true'] at h
+  obtain ⟨⟨⟨hmin, _⟩, hlen⟩, hall⟩ := h
+  obtain ⟨a, ha, hag⟩ := allAssign_complete p.binVars x (bins_binary p x hx)
+  obtain ⟨c, hc⟩ := mem_zip_of_mem _ _ hlen a ha
+  have hleaf := hall (a, c) hc
+  have hfx := fix_feasible p x a hag hx
+  cases c with
+  | infeas ys =>
+    simp only at hleaf
+    exact absurd ⟨x, hfx⟩ (certInfeas_sound _ ys hleaf)
+  | opt xs ys =>
+    simp only [Bool.and_eq_true, decide_eq_true_eq] at hleaf
+    obtain ⟨hco, hL⟩ := hleaf
+    obtain ⟨hopt, hmap⟩ := certOpt_isOpt (p.fix a) xs ys hco
+    have hcl : (p.fix a).closedB = true := by
+      simp only [Prob.certOpt, Bool.and_eq_true] at hco; exact hco.1
+    have hval := dense_obj_dot (p.fix a) hcl (assignOf ((p.fix a).vars.map (·.v)) xs)
+    rw [hmap] at hval
+    have hle := hopt.2 x hfx
+    have hd : (p.fix a).dirMax = false := hmin
+    simp only [hd, Bool.false_eq_true, if_false, fix_value] at hle
+    have : (p.fix a).dense p.obj = (p.fix a).dense (p.fix a).obj := rfl
+    rw [this, hval, fix_value] at hL
+    linarith
+
+theorem lookupA_binary (bs : List V) (a : List (V × Rat)) (ha : a ∈ allAssign bs) (w : V) : lookupA a w = 0 ∨ lookupA a w = 1 := by
+  induction bs generalizing a with
+  | nil =>
+    simp only [allAssign, List.mem_singleton] at ha
+    subst ha; exact Or.inl rfl
+  | cons b bs ih =>
+    simp only [allAssign, List.mem_flatMap, List.mem_cons, List.not_mem_nil, or_false] at ha
+    obtain ⟨a0, ha0, rfl | rfl⟩ := ha
+    · simp only [lookupA]
+      split
+      · exact Or.inl rfl
+      · exact ih a0 ha0
+    · simp only [lookupA]
+      split
+      · exact Or.inr rfl
+      · exact ih a0 ha0
+
+/-- … and the point a leaf certificate names is a feasible point of the mixed-integer problem (binary variables with the box `[0, 1]`): the bound
+of `certLeavesMin_bound` is attained by the best leaf -/
+theorem leaf_point_feasible (p : Prob) (a : List (V × Rat)) (ha : a ∈ allAssign p.binVars)
+    (hbox : ∀ w ∈ p.vars, w.kind = .bin → w.lb = .fin 0 ∧ w.ub = .fin 1) (hni : ∀ w ∈ p.vars, w.kind ≠ .int)
+    (x : V → Rat) (hx : (p.fix a).Feasible x) : p.Feasible x := by
+  refine ⟨?_, hx.2⟩
+  intro w hw
+  have hfw := hx.1 (if w.kind == .bin then ⟨w.v, .fin (lookupA a w.v), .fin (lookupA a w.v), .cont⟩ else w)
+    (by simp only [Prob.fix, List.mem_map]; exact ⟨w, hw, rfl⟩)
+  by_cases hb : w.kind = .bin
+  · have hb' : (w.kind == Kind.bin) = true := by simp [hb]
+    rw [if_pos hb', ok_cont, Core.inBox_fin] at hfw
+    have hval : x w.v = lookupA a w.v := le_antisymm hfw.2 hfw.1
+    have h01 := lookupA_binary p.binVars a ha w.v
+    obtain ⟨hl, hu⟩ := hbox w hw hb
+    refine ⟨?_, fun _ => by rw [hval]; exact h01, fun hk => absurd hk (hni w hw)⟩
+    rw [hl, hu, Core.inBox_fin, hval]
+    rcases h01 with h | h <;> rw [h] <;> constructor <;> norm_num
+  · have hb' : (w.kind == Kind.bin) = false := by simpa using hb
+    rw [hb'] at hfw
+    exact hfw
+
 end AuxM
